@@ -52,7 +52,7 @@ var c19Pool = []string{
 
 var c19Texts = []string{"ababa abab", "acca bccb", "aaba ab", "ab12 aab123 b7", "xaxbyaybb", "aabbdzaabbd", "x12 x13 x9", "hello wor1d", "abab aca", "(a(b)) ()", "a1 c2 x ", "abcddcba",
 	// long enough for loops to pass 64, 128 and 256 iterations in one attempt
-	strings.Repeat("a", 70) + "b12 " + strings.Repeat("a", 130) + "bb7", "(" + strings.Repeat("ab", 140) + ") x" + strings.Repeat("1", 300) + " x12", strings.Repeat("ab", 40) + "xa" + strings.Repeat("b", 90) + "ya" + strings.Repeat("ab", 70)}
+	strings.Repeat("a", 70) + "b12 " + strings.Repeat("a", 130) + "bb7", "(" + strings.Repeat("ab", 36) + ") x" + strings.Repeat("1", 260) + " x12", strings.Repeat("ab", 20) + "xa" + strings.Repeat("b", 70) + "ya" + strings.Repeat("ab", 34)}
 
 var raceHead = regexp.MustCompile(`^\s+(\S+)\(.*\)$`)
 
@@ -198,6 +198,12 @@ func C19(r *drv.Run) {
 		c := wire.Case{Op: "conc", Srcs: srcs, Texts: texts, Calls: calls, Goroutines: g, Yield: i%2 == 0}
 		return &drv.Item{Case: c, Check: func(res *wire.Result) {
 			r.Eval(len(res.Calls))
+			if res.Died && (res.Guard == "cpu" || res.Guard == "heap") {
+				// the worker's resource guards, not the library: a round of up to 160 calls in the race build can
+				// exceed them on the long texts; the round is not judged
+				r.Count("rounds_stopped_by_resource_guard", 1)
+				return
+			}
 			if res.Died || res.Panic != nil {
 				r.Violate(&drv.Violation{Sig: "concurrent-round-crashed:" + classifyFatal(res.Stderr), Panic: firstLines(res.Stderr, 4), Case: &c})
 				return
@@ -258,6 +264,9 @@ func C19(r *drv.Run) {
 		}
 	}
 	if r.NViolations() == 0 {
+		if g := r.Counter("rounds_stopped_by_resource_guard"); g > 2+r.Counter("rounds")/50 {
+			r.Inconclusive(fmt.Sprintf("%d rounds were stopped by the worker's CPU/heap guard (more than 2%% of the rounds judged)", g))
+		}
 		if r.Counter("calls_overlapping_another") == 0 || r.Counter("yields_taken") == 0 {
 			r.Inconclusive("coverage floor: no overlapping calls / no yields taken")
 		}
